@@ -3,12 +3,17 @@
 package server
 
 import (
+	"sync"
+
 	"github.com/openconfig/gribigo/rib"
 
 	spb "github.com/openconfig/gribi/v1/proto/service"
 )
 
-func init() { vfRegister("VfC11_lockset", VfC11_lockset) }
+func init() {
+	vfRegister("VfC11_lockset", VfC11_lockset)
+	vfRegister("VfC11_concurrentElections", VfC11_concurrentElections)
+}
 
 func vfTrackHeap()       {}
 func vfRole(name string) {}
@@ -123,4 +128,55 @@ func vfC11Seed(s *Server) {
 			panic("cannot seed RIB")
 		}
 	}
+}
+
+// VfC11_concurrentElections: two sessions announce arbitrary ids concurrently;
+// once both calls have returned the reported id must be the larger one and the
+// primary a session that announced it - for every schedule within the context
+// bound.  Natively (replay) the round is repeated many times behind a barrier,
+// because the Go scheduler rarely produces the interleaving on the first try.
+func VfC11_concurrentElections() {
+	aH, aL := vfU64("a.hi"), vfU64("a.lo")
+	bH, bL := vfU64("b.hi"), vfU64("b.lo")
+	vfAssume(vfOr(aH != 0, aL != 0))
+	vfAssume(vfOr(bH != 0, bL != 0))
+	rounds := 1
+	if !vfEngine() {
+		rounds = 300000
+	}
+	for r := 0; r < rounds; r++ {
+		s := &Server{cs: map[string]*clientState{}}
+		for _, c := range []string{"A", "B"} {
+			s.cs[c] = &clientState{params: &clientParams{ExpectElecID: true, Persist: true}, setParams: true}
+		}
+		var wg sync.WaitGroup
+		start := make(chan struct{})
+		wg.Add(2)
+		vfSched(2)
+		go func() {
+			defer wg.Done()
+			<-start
+			s.runElection("A", &spb.Uint128{High: aH, Low: aL})
+		}()
+		go func() {
+			defer wg.Done()
+			<-start
+			s.runElection("B", &spb.Uint128{High: bH, Low: bL})
+		}()
+		close(start)
+		wg.Wait()
+		vfSched(0)
+		aWins, bWins := ge128(aH, aL, bH, bL), ge128(bH, bL, aH, aL)
+		maxH, maxL := vfIte64(aWins, aH, bH), vfIte64(aWins, aL, bL)
+		ok := s.curElecID != nil
+		if ok {
+			ok = vfAnd(eq128(s.curElecID.High, s.curElecID.Low, maxH, maxL),
+				vfOr(vfAnd(s.curMaster == "A", aWins), vfAnd(s.curMaster == "B", bWins)))
+		}
+		vfAssert(ok, "C11:quiescent-election-state-is-the-maximum-announced-and-its-announcer")
+		if !ok && !vfEngine() {
+			break
+		}
+	}
+	vfReach("end")
 }
